@@ -78,7 +78,8 @@ class SvsInst:
                  sync_int_validator: app.Validator,
                  sync_interval: float = 30, suppression_interval: float = 0.2,
                  last_used_seq_num: int = 0):
-        self.base_prefix = enc.Name.normalize(base_prefix)
+        # Keep a private copy: normalize() may return views into (or the components of) the caller's buffers
+        self.base_prefix = [bytes(comp) for comp in enc.Name.normalize(base_prefix)]
         self.self_node_id = enc.Name.to_bytes(self_node_id)
         self.sync_interval = sync_interval
         self.suppression_interval = suppression_interval
